@@ -247,6 +247,7 @@ namespace ratio
         reason.emplace(&atm, af);
 
         // we check if we need to notify the new atom to any smart types..
+        bool smart = false;
         if (&atm.get_type().get_scope() != this)
         {
             std::queue<type *> q;
@@ -254,11 +255,24 @@ namespace ratio
             while (!q.empty())
             {
                 if (smart_type *st = dynamic_cast<smart_type *>(q.front()))
+                {
                     st->new_atom(*af);
+                    smart = true;
+                }
                 for (const auto &st : q.front()->get_supertypes())
                     q.push(st);
                 q.pop();
             }
+        }
+
+        if (is_fact && !smart && imp_pred && int_pred && (is_impulse(atm) || is_interval(atm)))
+        { // rules are not applied to facts, yet a fact of an impulse/interval predicate is a temporal atom: as the smart types do, we apply the impulse/interval rule whenever the fact becomes active..
+            set_ni(lit(atm.get_sigma()));
+            if (is_impulse(atm))
+                get_impulse().apply_rule(atm);
+            else
+                get_interval().apply_rule(atm);
+            restore_ni();
         }
     }
 
